@@ -2,7 +2,7 @@
 import itertools
 
 from .. import cmpgen as G
-from .. import l2
+from .. import l2, sx
 from .. import run as R
 from .c01 import CmpProp
 
@@ -69,6 +69,21 @@ class C02(CmpProp):
                 feats = ['doc-refuses', 'traits:' + '+'.join(traits)] + ['%s(%s)' % (a, o) for a, o in rc.items() if o != '-']
                 out.append((req, dict(features=tuple(feats), nontrivial=True, traits=traits, variants=variants,
                                       enum=is_enum, name=name, doc_refuses=True)))
+            # explicit discriminants on some variants: the order of variants is their declaration order for every derived
+            # impl alike (== / partial_cmp / cmp / hash must keep agreeing)
+            k = 0
+            for traits in (SETS[2], SETS[3], SETS[6], SETS[7]):
+                for discrs in (['1', None], ['2', None, None], [None, '5', None], ['3', '1', None], [None, None, '7'],
+                               ['1', None, '0']):
+                    for fields in (False, True):
+                        k += 1
+                        n = len(discrs)
+                        variants = [(fields and i % 2 == 0, [('u8', {})] if (fields and i != 1) else []) for i in range(n)]
+                        req = G.make_item('E', variants, True, traits, 'attr' if k % 2 else 'derive', discrs=discrs,
+                                          item_attrs=[sx.a_other('repr ( u8 )')] if fields else [])
+                        out.append((req, dict(features=('explicit-discriminants', 'traits:' + '+'.join(traits),
+                                                        'fields' if fields else 'units', ','.join(d or '_' for d in discrs)),
+                                              nontrivial=True, traits=traits, variants=variants, enum=True, name='E')))
             if tier == 'thorough':
                 # the whole accepted grid, one combination per single-field struct, per trait set
                 for traits in SETS:
